@@ -32,6 +32,17 @@ import (
 
 var c10RotNames = []string{"b", "m", "b2", "b3", "m2", "m3"}
 
+// thread ids that share long prefixes (a third party can pick a near-copy of a thread id it has seen)
+var c10RotThreads = map[string]string{
+	"t1": "01234567-89ab-cdef-0123-456789abcde0",
+	"t2": "01234567-89ab-cdef-0123-456789abcde1",
+	"t3": "01234567-89ab-cdef-0123-456789abcde0x",
+	"t4": "01234567-89ab-cdef-0123-456789ab",
+	"t5": strings.Repeat("thread-", 10) + "A",
+	"t6": strings.Repeat("thread-", 10) + "B",
+	"t7": "t",
+}
+
 func c10RotRun(input string) string {
 	parts := strings.SplitN(input, "|", 2)
 	cf := strings.Split(parts[0], ",")
@@ -106,6 +117,28 @@ func c10RotRun(input string) string {
 			signingInput := b64(hdr) + "." + b64(pl)
 			msg["from_prior"] = signingInput + "." + b64(ed25519.Sign(privs[f[1]], []byte(signingInput)))
 			env = f[5]
+		case f[0] == "ths" && len(f) == 3 && c10RotThreads[f[1]] != "" && (f[2] == "b" || f[2] == "m"):
+			// the thread id -> connection index of the recorder: distinct thread ids are distinct keys, however much of
+			// their text they share
+			if err := rec.SaveNamespaceThreadID(c10RotThreads[f[1]], connection.MyNSPrefix, "conn-"+f[2]); err != nil {
+				outs = append(outs, "err")
+			} else {
+				outs = append(outs, "ok")
+			}
+			continue
+		case f[0] == "thg" && len(f) == 2 && c10RotThreads[f[1]] != "":
+			key, err := connection.CreateNamespaceKey(connection.MyNSPrefix, c10RotThreads[f[1]])
+			if err != nil {
+				outs = append(outs, "err")
+				continue
+			}
+			r, err := rec.GetConnectionRecordByNSThreadID(key)
+			if err != nil {
+				outs = append(outs, "none")
+			} else {
+				outs = append(outs, strings.TrimPrefix(r.ConnectionID, "conn-"))
+			}
+			continue
 		case f[0] == "msg" && len(f) == 2:
 			env = f[1]
 		default:
@@ -186,7 +219,13 @@ func c10RotGen(r *Rng, n int) []string {
 				ops = append(ops, o, o)
 				cur[who] = sub
 			default:
-				ops = append(ops, "msg "+r.Pick(append(append([]string{}, all...), "x")))
+				if r.Bool() {
+					ops = append(ops, "msg "+r.Pick(append(append([]string{}, all...), "x")))
+				} else {
+					ts := []string{"t1", "t2", "t3", "t4", "t5", "t6", "t7"}
+					ops = append(ops, "ths "+r.Pick(ts)+" "+r.Pick([]string{"b", "m"}), "ths "+r.Pick(ts)+" "+r.Pick([]string{"b", "m"}),
+						"thg "+r.Pick(ts), "thg "+r.Pick(ts))
+				}
 			}
 		}
 		out = append(out, "rot,"+style+"|"+strings.Join(ops, ";"))
